@@ -36,6 +36,8 @@ def run(ctx: Ctx) -> None:
             ctx.ok("T1", f"label {lab}", "mappyfile/transformer.py", "callback present")
         elif lab in cmeths:
             ctx.ok("T1", f"label {lab}", "mappyfile/transformer.py", "rewritten by Canonize before the main transformer")
+        elif repo.module("transformer").class_aliases.get("MapfileTransformer", {}).get(lab) in tmeths:
+            ctx.ok("T1", f"label {lab}", "mappyfile/transformer.py", "callback present (class-body alias of another method)")
         elif lab in repo.module("transformer").class_bindings.get("MapfileTransformer", {}):
             raise AnalysisError(f"callback {lab} is bound in the class body by an expression that is not resolved to a function")
         else:
